@@ -135,7 +135,7 @@
     /// by source timestamp (the insert position must be computed on the list the sample is inserted into).
     /// @props C21
     /// @kind bounded
-    /// @tier thorough
+    /// @tier extended
     /// @timeout 2400
     /// @bounds 2 stored samples of one instance, KEEP_LAST(2), timestamps sec in 0..=255 and nanosec 0
     /// @fn DataReaderEntity::add_reader_change
@@ -149,7 +149,7 @@
     /// arbitrary (before, between, equal, after), KEEP_LAST(2), one instance.
     /// @props C21
     /// @kind bounded
-    /// @tier thorough
+    /// @tier extended
     /// @timeout 3000
     /// @bounds 2 stored samples of one instance with timestamps 20 s and 40 s, KEEP_LAST(2), incoming timestamp sec in 0..=255
     /// @fn DataReaderEntity::add_reader_change
